@@ -250,7 +250,10 @@ def conv_stub():
     return Stub("converter", {"unicode_to_latex": conv, "latex_to_text": conv})
 
 
-def sym_doc(eng):
+def sym_doc(eng, doc="main"):
+    if doc == "noentries":
+        # a library without a single entry (only @string / @preamble / comments + 2 symbolic characters)
+        return mk(tuple("@string{s = {v}}\n@preamble{\"p\"}\n@comment{c}\nfree\n") + chars(eng.sym_str("t", 2, SIGMA_S)))
     k1 = eng.sym_str("k1_", 1, "ab")
     k2 = eng.sym_str("k2_", 1, "ab")
     tail = eng.sym_str("t", 2, SIGMA_S)
@@ -310,10 +313,10 @@ def native_run(text, prep, stack, inplace):
     return problems
 
 
-def task(prep, stack):
+def task(prep, stack, doc="main"):
     eng = Engine()
     rec = Recorder(eng)
-    text = sym_doc(eng)
+    text = sym_doc(eng, doc)
     inplace = eng.sym_bool("inplace")
     stub = conv_stub()
     ctx = {}
@@ -394,7 +397,7 @@ PREPS = {"raw": (), "default": ("resolve", "remove"), "separated": ("resolve", "
 
 def main():
     chk = Check("C07", __doc__)
-    chk.bounds = {"input libraries": "parse of '@string{s={v}} @a{K1, author={A and BN}, month=1, t=s} (N symbolic: a valid or an invalid name) @a{K2, T=x, t=y} @b{d, t=1, t=2}' + 2 symbolic characters, K1/K2 symbolic over {a,b}; as split, after the default stack, and after name separation + splitting (list / NameParts values)",
+    chk.bounds = {"input libraries": "(also an entry-free document: @string, @preamble, @comment, free text + 2 symbolic characters) parse of '@string{s={v}} @a{K1, author={A and BN}, month=1, t=s} (N symbolic: a valid or an invalid name) @a{K2, T=x, t=y} @b{d, t=1, t=2}' + 2 symbolic characters, K1/K2 symbolic over {a,b}; as split, after the default stack, and after name separation + splitting (list / NameParts values)",
                   "middlewares": NAMES, "stacks": "every single middleware on every prepared input; " + ("all ordered pairs" if chk.tier == "thorough" else "selected pairs") + " on the default-stack input",
                   "allow_inplace_modification": "symbolic boolean"}
     chk.assumptions = ["exception objects stored in failed blocks are shared on purpose (immutables, exceptions.py); the walk does not count the error object itself but does follow its attributes",
@@ -414,6 +417,10 @@ def main():
         ("remove", "addq"), ("separate", "splitnames"), ("splitnames", "mergeparts"), ("monthint", "monthlong"), ("normkeys", "sortalpha"),
         ("sortblocks", "remove"), ("remove", "sortblocks"), ("latexenc", "latexdec"), ("resolve", "sortcustom"), ("add{", "sortblocks2"),
         ("mergeparts", "splitnames"), ("mergeco", "separate")]
+    # libraries without any entry
+    for name in NAMES:
+        for pn in ("raw", "default"):
+            chk.add_task(f"noentries-{pn}-{name}", task, prep=PREPS[pn], stack=(name,), doc="noentries")
     pairs = pairs + [(n, "=") for n in NAMES]       # the same instance applied to its own result
     for a, b in pairs:
         prep = PREPS["default"]
